@@ -7,7 +7,7 @@ set -u
 cd "$(dirname "$0")/.."
 export GOFLAGS=-mod=mod GOPROXY=off GOSUMDB=off GOTOOLCHAIN=local; unset GOWORK
 export SDIR="${SDIR:-/verif/seeded}"
-seeds=("$@"); [ ${#seeds[@]} -eq 0 ] && seeds=($(ls "$SDIR" | grep -v MATRIX))
+seeds=("$@"); [ ${#seeds[@]} -eq 0 ] && seeds=($(ls "$SDIR" | grep -v -e MATRIX -e FIRSTPASS))
 one() {
   sid="$1"
   WT=$(mktemp -d /tmp/pl-mx-XXXXXX)
